@@ -28,15 +28,26 @@ def run(ctx):
     ctx.trust('np.mean([a, b], axis=0) == (a+b)/2; elementwise arithmetic is real algebra up to rounding')
     ctx.assume('np.pad(reflect, odd) makes progress in the re-padding loop of get_padded_extrema (loop listed as '
                'unbounded, trusted)')
-    siftcore.rule_iterate_algebra(ctx, 'C04.R1', gni)
-    siftcore.rule_stop_dispatch(ctx, 'C04.R2', gni)
-    siftcore.rule_stop_predicates(ctx, 'C04.R3')
-    siftcore.rule_bounded_loop(ctx, 'C04.R4', gni)
-    siftcore.rule_extraction_loop_exits(ctx, 'C04.R4', gni)
+    ctx.rule(siftcore.rule_iterate_algebra, 'C04.R1', gni)
+    ctx.rule(siftcore.rule_stop_dispatch, 'C04.R2', gni)
+    ctx.rule(siftcore.rule_stop_predicates, 'C04.R3')
+    ctx.rule(siftcore.rule_bounded_loop, 'C04.R4', gni)
+    ctx.rule(siftcore.rule_extraction_loop_exits, 'C04.R4', gni)
     # the same options must be in force on every sifting iteration: an option dict changed by one envelope
     # computation (a key popped from the caller's pad table) gives later iterations different envelopes
     from .c06 import rule_no_replacement
-    rule_no_replacement(ctx, 'C04.R6', only={'emd.sift.get_next_imf', 'emd.sift.interp_envelope',
+    from . import c05
+    ctx.rule(c05.rule_strict_search, 'C04.R7')      # 'no extrema -> returned unmodified' is about strict extrema
+    ctx.rule(rule_no_replacement, 'C04.R6', only={'emd.sift.get_next_imf', 'emd.sift.interp_envelope',
                                              'emd.sift.get_padded_extrema', 'emd.sift._find_extrema'})
-    siftcore.rule_cleared_flag(ctx, 'C04.R5', gni)
-    siftcore.rule_energy_stop(ctx, 'C04.R6', gni)
+    from ..effects import MutationAnalysis
+    mp = MutationAnalysis(P).mutated_params(gni)
+    c = 'the extraction does not modify the signal it is given'
+    if gni.params[0] in mp:
+        mu = mp[gni.params[0]][0]
+        ctx.violation('C04.R6', gni, c, 'get_next_imf changes its input in place (%s): the caller\'s array ends up holding '
+                      'an intermediate iterate, and the energy test compares the iterate with itself' % mu.what, node=mu.node)
+    else:
+        ctx.passed('C04.R6', gni, c)
+    ctx.rule(siftcore.rule_cleared_flag, 'C04.R5', gni)
+    ctx.rule(siftcore.rule_energy_stop, 'C04.R6', gni)
